@@ -19,7 +19,8 @@ RULE = (
     "restore-to-initial, escaped expression instructions, personality/LSDA/return column) plus a malformed "
     "stream obtained by one mutation (dropped/duplicated startproc or endproc, unbalanced restore_state, offset "
     "change under an expression CFA, missing symbol, wrong arity, unknown directive, truncated escape), "
-    "distributed over 1-4 blocks and offsets, blocks handed over in shuffled order, per ABI; distinct by "
+    "distributed over 1-4 blocks and offsets, blocks handed over in shuffled order and the table's keys inserted in "
+    "shuffled order (insertion order is not address order), per ABI; distinct by "
     "(abi, placed directive list); a case is non-trivial when it has at least 3 directives"
 )
 ASSUMPTIONS = [
@@ -307,7 +308,8 @@ def make_case(rng, deep=False):
     rng.shuffle(order)
     # block addresses: sequential with gaps; occasionally a zero-sized block sharing an address
     sizes = [rng.choice([4, 8, 12]) for _ in range(nblocks)]
-    return {"isa": isa, "ff": ff, "abi": abiname, "nblocks": nblocks, "sizes": sizes, "locs": [[b, o, [list(d) for d in dl]] for b, o, dl in locs], "order": order, "label": label, "n": len(ds)}
+    return {"isa": isa, "ff": ff, "abi": abiname, "nblocks": nblocks, "sizes": sizes, "locs": [[b, o, [list(d) for d in dl]] for b, o, dl in locs], "order": order, "label": label, "n": len(ds),
+            "key_seed": rng.randrange(1 << 30) if rng.random() < 0.7 else None}
 
 
 # --------------------------------------------------------------------------
@@ -333,6 +335,17 @@ def run_impl(case):
     symidx = {id(s): i for i, s in enumerate(syms)}
     table = m.aux_data["cfiDirectives"].data
     other = uuid.UUID(int=0x1234)
+    # the table's insertion order is not the address order: keys are created in a shuffled order first
+    keys = []
+    for b, off, _ in case["locs"]:
+        if (b, off) not in keys:
+            keys.append((b, off))
+    if case.get("key_seed") is not None:
+        import random as _random
+
+        _random.Random(case["key_seed"]).shuffle(keys)
+    for b, off in keys:
+        table[gtirb.Offset(blocks[b], off)] = []
     for b, off, dl in case["locs"]:
         key = gtirb.Offset(blocks[b], off)
         lst = table.setdefault(key, [])
